@@ -195,10 +195,56 @@ impl Matcher {
             i = day_end;
         }
 
+        self.reject_negative_allowable_cost()?;
+
         Ok((
             std::mem::take(&mut self.matches),
             std::mem::take(&mut self.pools),
         ))
+    }
+
+    /// Capital returns are checked against the expenditure of the lots the cost pre-pass believes
+    /// are held; matching can identify a disposal with other shares (30-day rule) and a return is
+    /// apportioned by share count, so the expenditure actually left on a leg or on the pool can be
+    /// smaller. Never report a negative allowable cost: the distributions exceed the expenditure
+    /// they fall on, which TCGA92/S122(2) does not cover.
+    fn reject_negative_allowable_cost(&self) -> Result<(), CgtError> {
+        let negative = |cost: Decimal| cost.round_dp(2) < Decimal::ZERO;
+        let offender = self
+            .matches
+            .iter()
+            .find(|m| negative(m.match_detail.allowable_cost))
+            .map(|m| {
+                (
+                    m.disposal_ticker.clone(),
+                    format!("the disposal on {}", m.disposal_date),
+                    m.match_detail.allowable_cost,
+                )
+            })
+            .or_else(|| {
+                let mut pools: Vec<_> = self.pools.values().collect();
+                pools.sort_by(|a, b| a.ticker.cmp(&b.ticker));
+                pools
+                    .into_iter()
+                    .find(|pool| negative(pool.total_cost))
+                    .map(|pool| {
+                        (
+                            pool.ticker.clone(),
+                            "the remaining holding".to_string(),
+                            pool.total_cost,
+                        )
+                    })
+            });
+        match offender {
+            Some((ticker, place, cost)) => Err(CgtError::InvalidTransaction(format!(
+                "CAPRETURN {ticker}: capital distributions exceed the allowable cost of the shares \
+                 they fall on ({place} would have an allowable cost of £{}). TCGA92/S122(2) does \
+                 not apply when distribution exceeds expenditure (CG57847). Part-disposal under \
+                 S122(1) or election under S122(4) is required.",
+                cost.round_dp(2)
+            ))),
+            None => Ok(()),
+        }
     }
 
     /// Sort transactions by date and merge same-day same-ticker buys/sells.
